@@ -120,6 +120,13 @@ def tuple_unions():
         lambda p: ["Union", [["Tuple", [p[0]] * n] for n in p[1]]])
 
 
+def mixed_tuple_unions():
+    """homogeneous tuples of several arities over TWO element types (must not collapse to Tuple[V, ...])"""
+    el = st.sampled_from([["atom", "int"], ["atom", "str"], ["cls", "D1"], ["atom", "None"]])
+    return st.lists(st.tuples(el, st.integers(1, 6)).map(lambda p: ["Tuple", [p[0]] * p[1]]), min_size=3, max_size=9, unique_by=repr).map(
+        lambda l: ["Union", l])
+
+
 def class_unions():
     return st.lists(st.sampled_from([["cls", c] for c in CLASSES] + [["atom", "int"], ["atom", "bool"], ["atom", "None"]]),
                     min_size=2, max_size=8, unique_by=repr).map(lambda l: ["Union", l])
@@ -132,7 +139,7 @@ def dict_unions():
 
 
 def focused():
-    return st.one_of(tuple_unions(), class_unions(), dict_unions())
+    return st.one_of(tuple_unions(), mixed_tuple_unions(), class_unions(), dict_unions())
 
 
 # ---- exhaustive enumeration -------------------------------------------------------------------
